@@ -6,7 +6,7 @@ import ast
 from .. import sym as S
 from ..engine import Check
 from ..loader import AnalysisError
-from ..rulelib import (simulate_loop, _typestate, appends_in, calls_named, carried_with_entry, check_const, check_layout,
+from ..rulelib import (after_loop_valuation, simulate_loop, _typestate, appends_in, calls_named, carried_with_entry, check_const, check_layout,
                        classify_effect, conds_sym, eval_conds, fld, func_eval, func_outcomes, inst_attr, loop_carried,
                        loops_of, reach_table, select_branch, self_stores, spec_expr, walk_cfg)
 
@@ -172,6 +172,18 @@ def verify_bitcount(chk: Check):
             if not bad:
                 S._MODELS[ctx.qual] = (lambda ones_: (lambda v, size=32: _count(v, size, ones_)))(ones)
             continue
+        if len(ctx.loops) == 1:
+            # one loop, whatever it carries (the index alone, or a running mask as well): the loop is evaluated round by round
+            # on (value, size) vectors and the returned count compared with the reference
+            res = _bitcount_by_simulation(chk, ctx, ctx.loops[0], V, SZ, ones, outs)
+            if res is not None:
+                bad, n = res
+                chk.decide(not bad, "K-FORMULA", f"bitcount:{name}", ctx.func,
+                           f"{name}(value, size) = number of trailing {'one' if ones else 'zero'} bits, `size` if there is none "
+                           f"({n} (value, size) vectors evaluated round by round)" if not bad else "; ".join(bad[:3]))
+                if not bad:
+                    S._MODELS[ctx.qual] = (lambda ones_: (lambda v, size=32: _count(v, size, ones_)))(ones)
+                continue
         ok = len(floops) == 1 and len(outs) == 2
         why = []
         if ok:
@@ -203,6 +215,53 @@ def verify_bitcount(chk: Check):
                    f"{name}(value, size) = number of trailing {'one' if ones else 'zero'} bits, `size` if there is none" if ok else "; ".join(why))
         if ok:
             S._MODELS[ctx.qual] = (lambda ones_: (lambda v, size=32: _count(v, size, ones_)))(ones)
+
+
+def _bitcount_by_simulation(chk: Check, ctx, loop, V, SZ, ones, outs):
+    """-> ([mismatches], vectors evaluated) or None when the loop cannot be evaluated round by round."""
+    R = chk.R
+    carried = loop_carried(chk, ctx, loop)
+    hdr = ctx.cfg.node_of[loop]
+    I = None
+    if isinstance(loop, ast.For):
+        it = R.expr(ctx, loop.iter, hdr, binds={"__exclude_loop__": loop})
+        if it != S.call("range", [SZ]):
+            return None
+        I = ("iter", it, None)
+    finals = [o for o in outs if o[0] == "return" and not any(o[1] is x for x in ast.walk(loop))]
+    if len(finals) != 1:
+        return None
+    vectors = [(v, sz) for sz in (1, 2, 3, 8) for v in range(0, 256, 1 if sz < 8 else 3)]
+    for sz in (32, 64):
+        vectors += [(v, sz) for v in (0, 1, 2, 4, 8, 12, (1 << sz) - 1, 1 << (sz - 1), (1 << sz), (1 << (sz - 1)) - 1, 0x5555, 0xFFFF0000, 7, 0xFF)]
+    bad = []
+    for v, sz in vectors:
+        base = {V: v, SZ: sz}
+        inputs = [dict({I: k} if I is not None else {}) for k in range(sz + (0 if I is not None else 1))]
+        rounds = simulate_loop(chk, ctx, loop, carried, inputs, base=base)
+        got = None
+        try:
+            for r in rounds:
+                if r[2][0] in ("fork", "limit"):
+                    return None
+                if r[2][0] == "return":
+                    node = r[2][1]
+                    got = S.ev(R.expr(ctx, node.ast.value, node), r.val)
+                    break
+                if r[2][0] == "raise":
+                    got = "raise"
+                    break
+            else:
+                val = after_loop_valuation(chk, ctx, loop, carried, rounds)
+                for k_, v_ in base.items():
+                    val.override[k_] = v_
+                got = S.ev(finals[0][3], val)
+        except S.EvalError:
+            return None
+        want = _count(v, sz, ones)
+        if got != want:
+            bad.append(f"{ctx.qual.split('::')[-1]}({v:#x}, {sz}) -> {got}, specified {want}")
+    return bad, len(vectors)
 
 
 def _count(v, size, ones):
